@@ -26,3 +26,11 @@ CLAIMS["C05"] = dict(
     technique="CFG dominance of budget guards over every evaluation call site, post-dominance of the counter increment, loop analysis of the iteration cap, lock-step history lists",
     text="Decides that every live call of the evaluation routine is dominated in its loop iteration by `counter >= maxfev -> raise MaxEvalError` (or is provably the first evaluation / dead), that the counter behind nfev has one `+= 1` site executed on every path of an evaluation, that the iteration cap dominates the main loop with one increment per iteration before any evaluation, that history lists are appended raw, in lock-step, under store_history and trimmed FIFO under `len > history_size`, and that the default budget is at least nb_points + 1.",
     note=TB)
+CLAIMS["C09"] = dict(
+    technique="CFG reachability from stop handlers to user-code-reaching calls; path check that stop tests follow each evaluation; exception-translation and raise-guard checks",
+    text="Decides that after TargetSuccess/FeasibleSuccess/CallbackSuccess is caught in minimize no path reaches a call that may run user code, that at every evaluation site the two stopping tests follow the evaluation on every normal path with no user code in between and under the documented guards, that the callback's StopIteration is translated inside the evaluation routine, and that the evaluation is counted before the callback can stop the run. 'nfev equals the index' numerically follows from C05's counter clause.",
+    note=TB + " The forced evaluation of best_eval on an empty filter is excluded from 'user code after a stop' by the checked fact that every evaluation leaves the filter non-empty.")
+CLAIMS["C20"] = dict(
+    technique="CFG path cover / exclusivity of the callback calls, def-chain check of the callback argument, allocation-kind (alias) analysis, value flow of the penalty",
+    text="Decides that, with a callback set, every normal path of the evaluation routine passes exactly one callback call placed after the filter update; that its argument is build_x(best_eval(penalty)[0]) with the objective value of the same selection - the chain the result builder uses; that build_x returns a fresh array and the array is not kept by the solver; that every evaluation passes the penalty in force; and that the convention is chosen from the signature's parameter names.",
+    note=TB)
